@@ -78,6 +78,7 @@ def base_patterns(n=320):
         "index": bytes((i + 1) & 0xFF for i in range(n)), "small": bytes((i % 3) + 1 for i in range(n)),
         "ascii": bytes(0x41 + (i % 26) for i in range(n)), "x2": bytes([0x02]) * n,
         "A-e-acute": (b"A\xc3\xa9" * n)[:n],
+        "cp1252-specials": (b"\x80\x93A\x94\x85" * n)[:n],    # bytes that Windows-1252 and ISO-8859-1 read differently
     }
 
 
